@@ -1,7 +1,7 @@
 ------------------------- MODULE HeadSyncTraceConsts -------------------------
 (* Placeholder: checks/X01.py generates this module from the constants the recorder wrote next to  *)
 (* each trace (peers, tree ids, acl / key-value ids, change names).                                 *)
-EXTENDS HeadSyncMC
+EXTENDS HeadSyncConsts
 TracePeers   == {"p1", "p2"}
 TraceTrees   == {"o00000", "o00001", "o00002"}
 TraceAcl     == {"acl"}
